@@ -12,7 +12,9 @@
 //
 //	kind   sys | user | url          seed  the group's key material is derived from it
 //	ids    hex;hex;…  the member list (20-byte ids = chain addresses), in share-index order
-//	parsed what dataParse gave when the case was generated (hex | err; "-" unless url): the model's input
+//	parsed what dataParse gave when the case was generated (hex | err; "-" unless url): the model's input;
+//	       an optional suffix !i,j,… names the members whose FETCH fails although the document exists (the
+//	       requester controls the server: it refuses the connection of those members) - they cannot compute the content
 //	byz    csv of Byzantine member indices, "-" none
 //	last, rid, useed   decimal event fields;  doc, sel  hex (url only, else "-")
 //	alts   hex;hex;…  further contents (content 0 is the one the request defines), "-" none
@@ -149,6 +151,7 @@ type kase struct {
 	doc              []byte
 	sel              string
 	parsed           string
+	fails            map[int]bool // members whose fetch fails
 	ids              [][]byte
 	alts             [][]byte
 	sched            []item
@@ -208,6 +211,13 @@ func parse(line string) *kase {
 	}
 	k.last, k.rid, k.seed2 = h.BigDec(w[6]), h.BigDec(w[7]), h.BigDec(w[8])
 	k.doc, k.sel, k.parsed = h.UnHex(w[9]), string(h.UnHex(w[10])), w[11]
+	k.fails = map[int]bool{}
+	if i := strings.Index(k.parsed, "!"); i >= 0 {
+		for _, s := range strings.Split(k.parsed[i+1:], ",") {
+			k.fails[h.Atoi(s)] = true
+		}
+		k.parsed = k.parsed[:i]
+	}
 	if w[12] != "-" {
 		for _, s := range strings.Split(w[12], ";") {
 			k.alts = append(k.alts, h.UnHex(s))
@@ -405,10 +415,15 @@ func run(k *kase) (impl, oracle, class string) {
 			oracle = "nondeterministic: dataParse gives another result than when the case was generated"
 		}
 	}
-	url := ""
+	url, url404 := "", ""
 	if k.kind == "url" {
 		url = docURL(k.doc)
+		// the server refuses these members (a 404 would not do: dataFetch hands the empty body on and an
+		// empty selector then "succeeds" with the empty result)
+		url404 = "http://127.0.0.1:1/refused"
 	}
+	// has(i): member i can compute the request's content
+	has := func(i int) bool { return c0ok && !(k.kind == "url" && k.fails[i]) }
 	var seed *big.Int
 	if k.kind == "user" {
 		seed = k.seed2
@@ -429,7 +444,11 @@ func run(k *kase) (impl, oracle, class string) {
 	}
 	start := func(nd *node) {
 		go func() {
-			nd.d.VerifHandleQuery(g.ids, g.pub, g.shares[nd.idx], "group-1", k.rid0(), k.last, seed, url, k.sel, ptype(k.kind))
+			u := url
+			if k.kind == "url" && k.fails[nd.idx] {
+				u = url404
+			}
+			nd.d.VerifHandleQuery(g.ids, g.pub, g.shares[nd.idx], "group-1", k.rid0(), k.last, seed, u, k.sel, ptype(k.kind))
 			close(nd.done)
 		}()
 	}
@@ -448,12 +467,26 @@ func run(k *kase) (impl, oracle, class string) {
 			return "stuck non-submitter", "stuck-non-submitter: the pipeline of a member that is not the derived submitter did not return (it waits for shares as if it were the submitter)", "stuck"
 		}
 		sent := nd.p.Sent()
-		if len(sent) == 1 {
+		if len(sent) >= 1 {
 			if s, ok := sent[0].Msg.(*vss.Signature); ok && s != nil {
 				mu.Lock()
 				captured[nd.idx] = s
 				capturedTo[nd.idx] = sent[0].To
 				mu.Unlock()
+			}
+		}
+		// a member that is not the derived submitter makes exactly ONE Request: its share (nil when it has
+		// nothing to sign), to nobody but the submitter
+		if oracle == "" {
+			switch {
+			case len(sent) > 1:
+				oracle = fmt.Sprintf("extra-share-messages: member %d (not the submitter) made %d requests", nd.idx, len(sent))
+			case len(sent) == 0 && has(nd.idx):
+				oracle = fmt.Sprintf("no-share-sent: member %d computed the content and sent nothing to the submitter", nd.idx)
+			case len(sent) == 1 && has(nd.idx) && captured[nd.idx] == nil:
+				oracle = fmt.Sprintf("no-share-sent: member %d computed the content and sent an empty message", nd.idx)
+			case len(sent) == 1 && !has(nd.idx) && captured[nd.idx] != nil:
+				oracle = fmt.Sprintf("signed-without-content: member %d could not compute the content and sent a share all the same", nd.idx)
 			}
 		}
 	}
@@ -503,12 +536,29 @@ func run(k *kase) (impl, oracle, class string) {
 	// wait until the submitter's stage has digested everything (or reported)
 	if sn != nil && started {
 		reported := func() bool { return len(sn.chain.Reports()) > 0 }
+		returned := func() bool {
+			select {
+			case <-sn.done:
+				return true
+			default:
+				return false
+			}
+		}
 		sentinel := &vss.Signature{Index: ptype(k.kind), RequestId: k.ridBytes(), Content: []byte("sentinel")}
-		if !reported() {
+		if !reported() && has(w.sub) {
 			go deliver(sn, sentinel)
 		}
-		// own share + deliveries + sentinel; the sentinel is received only after the previous message was processed
-		if !sn.lg.WaitCount(stageEvent, 1+toStage+1, reported, 10*time.Second) && !reported() {
+		if !has(w.sub) {
+			// no own share: since /repo 7f58072 the pipeline finishes without registering or collecting
+			select {
+			case <-sn.done:
+			case <-time.After(10 * time.Second):
+				if !reported() {
+					return "stuck no-content", "stuck-without-content: the submitter could not compute the content and its pipeline neither returned nor reported within 10 s (it waits for the peers' shares)", "stuck"
+				}
+			}
+		} else if !sn.lg.WaitCount(stageEvent, 1+toStage+1, func() bool { return reported() || returned() }, 10*time.Second) && !reported() && !returned() {
+			// own share + deliveries + sentinel; the sentinel is received only after the previous message was processed
 			return "stuck stage", "stuck: the submitter's recovery stage neither reported nor consumed its inputs", "stuck"
 		}
 		if reported() {
@@ -577,7 +627,7 @@ func run(k *kase) (impl, oracle, class string) {
 		}
 	}
 	// liveness: the honest submitter got >= t valid shares of distinct honest members on content 0 (its own included)
-	if oracle == "" && sn != nil && started && c0ok {
+	if oracle == "" && sn != nil && started && has(w.sub) {
 		valid := map[int]bool{w.sub: true}
 		for _, it := range k.sched {
 			if it.to >= 0 {
@@ -674,6 +724,16 @@ func (w *world) checkReport(nd *node, r doubles.Report) string {
 	var msg []byte
 	if k.kind == "sys" {
 		msg = append(pad32(k.last), nd.chain.Addr.Bytes()...)
+		// UpdateRandomness only uses the signature; the value handed over is checked all the same
+		if !bytes.Equal(s.RequestId, k.ridBytes()) {
+			return "wrong-request-id: UpdateRandomness with the share message of another request id"
+		}
+		if s.Index != ptype(k.kind) {
+			return fmt.Sprintf("wrong-traffic-type: UpdateRandomness with traffic type %d", s.Index)
+		}
+		if !bytes.Equal(s.Content, pad32(k.last)) {
+			return "wrong-result: the value reported for system randomness is not the 32-byte last randomness"
+		}
 	} else {
 		if !bytes.Equal(s.RequestId, k.ridBytes()) {
 			return "wrong-request-id: DataReturn for another request id"
